@@ -68,6 +68,24 @@ def check(case, ctx):
     kind = case.get("kind", "rewire")
     ctx.label("kind:" + kind)
 
+    if kind == "reject-seq":
+        # history: a valid call, then the SAME array object is edited in place into a disconnected network, then a second call
+        o1 = ctx.call(fn, W, case["itr"], seed=seed)
+        if o1.status == "timeout":
+            return fails
+        v = int(case["cut"])
+        W[v, :] = 0
+        W[:, v] = 0
+        ctx.mark_nontrivial(case)
+        o2 = ctx.call(fn, W, case["itr"], seed=seed)
+        if o2.status == "timeout":
+            return fails
+        if o2.status != "reject":
+            fails.append(Failure("%s:invalid-input-not-rejected-after-earlier-valid-call" % name,
+                                 "after a valid call the same array was disconnected in place (node %d isolated); the second call gave %r "
+                                 "instead of BCTParamError" % (v, o2), case))
+        return fails
+
     if kind == "reject":
         W0 = W.copy()
         args = (W, case["itr"])
@@ -91,15 +109,23 @@ def check(case, ctx):
         if not o.ok:
             return [Failure("crash:%s:%s" % (name, o.exc_name()), repr(o.exc)[:200], case)]
         X = np.asarray(o.value, dtype=float)
-        new = (X != 0) & (W == 0)
+        # a connection was "created" in a cell if the cell is occupied now and either was empty before or carries another
+        # connection's weight (the original one was swapped away and a different one was put there)
+        new = (X != 0) & ((W == 0) | (X != W))
         if np.any(new & (B != 0)):
             u, v = np.argwhere(new & (B != 0))[0]
-            fails.append(Failure("%s:connection-created-in-masked-cell" % name, "cell (%d,%d)" % (u, v), case))
+            fails.append(Failure("%s:connection-created-in-masked-cell" % name, "cell (%d,%d): %r -> %r under a nonzero mask" % (u, v, W[u, v], X[u, v]), case))
+        prev = W
         for t, ev in enumerate(rec.events):
             ctx.hook_events += 1
-            if np.any((ev["R"] != 0) & (W == 0) & (B != 0)):
-                fails.append(Failure("%s:step-connection-created-in-masked-cell" % name, "after swap #%d" % (t + 1), case))
+            R = ev["R"]
+            placed = (R != 0) & (prev == 0)          # cells filled by this very swap
+            if np.any(placed & (B != 0)):
+                u, v = np.argwhere(placed & (B != 0))[0]
+                fails.append(Failure("%s:step-connection-created-in-masked-cell" % name,
+                                     "accepted swap #%d placed a connection in masked cell (%d,%d)" % (t + 1, u, v), case))
                 break
+            prev = R
         if np.any(B != 0) and not np.array_equal(X, W):
             ctx.mark_nontrivial(case)
         return fails
@@ -181,6 +207,11 @@ def cases(draw, names, nmax):
     directed = name in rewire.DIR
     connected = name in rewire.CONNECTED
     seed = draw(gen.seeds())
+    if connected and not directed and draw(st.integers(0, 11)) == 0:
+        A, fam = draw(rewire.und_adj(5, nmax, True))
+        A = rewire.shuffle(draw, A)
+        W = draw(gen.weights_for(A, draw(st.sampled_from(["bin", "dyadic"])), False))
+        return {"fn": name, "kind": "reject-seq", "W": W, "itr": 1, "seed": seed, "cut": draw(st.integers(0, len(W) - 1))}
     if connected and not directed and draw(st.integers(0, 9)) == 0:
         # rejection inputs
         why = draw(st.sampled_from(["disconnected", "asymmetric"]))
